@@ -239,9 +239,50 @@ type divStep struct {
 
 func ruleC02Decomp(e *Env) {
 	const rule = "C02.decomp"
-	fn := e.Fn(rule, "roman", "DefaultFormatter")
-	if fn == nil {
+	top := e.Fn(rule, "roman", "DefaultFormatter")
+	if top == nil {
 		return
+	}
+	// the decomposition may live in a function of the package that DefaultFormatter hands the number (and the flags)
+	// to: follow that one call
+	fn := top
+	numP, flagP := ssa.Value(top.Params[1]), ssa.Value(top.Params[2])
+	hasDivision := func(f *ssa.Function) bool {
+		for _, b := range f.Blocks {
+			for _, in := range b.Instrs {
+				switch x := in.(type) {
+				case *ssa.BinOp:
+					if x.Op == token.QUO || x.Op == token.REM {
+						return true
+					}
+				case *ssa.Call:
+					if c := x.Call.StaticCallee(); c != nil && c.String() == "math/bits.Div64" {
+						return true
+					}
+				}
+			}
+		}
+		return false
+	}
+	if !hasDivision(top) {
+		for _, call := range e.C.Calls(top, flow.InRepo) {
+			g := flow.Origin(e.C.StaticCallee(&call.Call))
+			ni, fi := -1, -1
+			for ai, a := range call.Call.Args {
+				switch flow.StripConv(a) {
+				case ssa.Value(top.Params[1]):
+					ni = ai
+				case ssa.Value(top.Params[2]):
+					fi = ai
+				}
+			}
+			if ni >= 0 && ni < len(g.Params) && hasDivision(g) {
+				fn, numP = g, g.Params[ni]
+				if fi >= 0 && fi < len(g.Params) {
+					flagP = g.Params[fi]
+				}
+			}
+		}
 	}
 	site := flow.FnName(fn)
 	var steps []divStep
@@ -305,7 +346,7 @@ func ruleC02Decomp(e *Env) {
 		case st.c != wantC[i]:
 			e.S.Bad(rule, site, construct, fmt.Sprintf("division step %d divides by %d, the decimal decomposition needs %d", i, st.c, wantC[i]), e.Pos(fn), "")
 			okChain = false
-		case i == 0 && flow.StripConv(st.x) != ssa.Value(fn.Params[1]):
+		case i == 0 && flow.StripConv(st.x) != numP:
 			e.S.Bad(rule, site, construct, "the first division is not applied to the number itself", e.Pos(fn), "")
 			okChain = false
 		case i > 0 && st.x != steps[i-1].r:
@@ -364,7 +405,7 @@ func ruleC02Decomp(e *Env) {
 			e.S.Bad(rule, site, construct, fmt.Sprintf("write #%d is not the result of %s (order must be thousands, hundreds, tens, units)", i+2, wants[i].fn), e.posOf(w), "")
 		case src.Call.Args[0] != wants[i].arg:
 			e.S.Bad(rule, site, construct, wants[i].fn+" is not given the digit of its own decimal position", e.posOf(w), "")
-		case src.Call.Args[1] != ssa.Value(fn.Params[2]):
+		case src.Call.Args[1] != flagP:
 			e.S.Bad(rule, site, construct, wants[i].fn+" is not given the caller's format flags unchanged", e.posOf(w), "")
 		default:
 			e.S.Ok(rule, site, construct, wants[i].fn+"(digit of its position, f) written next", e.posOf(w))
@@ -449,47 +490,96 @@ func ruleC02Lower(e *Env) {
 		return
 	}
 	site := flow.FnName(fn)
-	got := map[int64]int64{}
-	for _, b := range fn.Blocks {
-		for _, in := range b.Instrs {
-			bo, ok := in.(*ssa.BinOp)
-			if !ok || bo.Op != token.EQL {
-				continue
-			}
-			c, ok := flow.ConstInt(bo.Y)
-			if !ok {
-				continue
-			}
-			for _, r := range *bo.Referrers() {
-				iff, ok := r.(*ssa.If)
-				if !ok {
-					continue
-				}
-				for _, in2 := range iff.Block().Succs[0].Instrs {
-					if st, ok := in2.(*ssa.Store); ok {
-						if v, ok := flow.ConstInt(st.Val); ok {
-							got[c] = v
-						}
+	// the per-byte transfer function, decided on a partition of all byte values: each of the seven upper-case roman
+	// letters as itself, the gaps between them as an opaque byte known only to lie in the gap. toLower is evaluated on
+	// a one-element slice; the element afterwards must be the letter's own lower case resp. unchanged.
+	letters := "CDILMVX" // sorted
+	type class struct {
+		lo, hi int64
+		letter bool
+	}
+	var classes []class
+	prev := int64(0)
+	for _, c := range letters {
+		if int64(c) > prev {
+			classes = append(classes, class{prev, int64(c) - 1, false})
+		}
+		classes = append(classes, class{int64(c), int64(c), true})
+		prev = int64(c) + 1
+	}
+	classes = append(classes, class{prev, 255, false})
+	gapBad := ""
+	for _, cl := range classes {
+		cl := cl
+		var elem pred.Val = pred.Sym{Name: "b"}
+		if cl.letter {
+			elem = pred.Const{V: constant.MakeInt64(cl.lo)}
+		}
+		cell := &pred.Cell{V: elem, Name: "byte"}
+		fixed := func(a, b pred.Val) (int, bool, bool) {
+			if sy, ok := a.(pred.Sym); ok && sy.Name == "b" {
+				if c, ok := b.(pred.Const); ok && c.V != nil && c.V.Kind() == constant.Int {
+					k, _ := constant.Int64Val(c.V)
+					switch {
+					case k < cl.lo:
+						return 1, true, true
+					case k > cl.hi:
+						return -1, true, true
+					case cl.lo == cl.hi:
+						return 0, true, true
 					}
 				}
 			}
+			return 0, false, false
 		}
-	}
-	for _, c := range "IVXLCDM" {
-		construct := fmt.Sprintf("%q", c)
-		v, ok := got[int64(c)]
+		sums := map[string]pred.Summary{
+			"strings.IndexByte": func(ev *pred.Evaluator, args []pred.Val) (pred.Val, error) {
+				str, ok1 := args[0].(pred.Const)
+				if !ok1 || str.V == nil || str.V.Kind() != constant.String {
+					return nil, &pred.Undecided{Reason: "IndexByte on a non-constant string"}
+				}
+				set := constant.StringVal(str.V)
+				if c, ok := args[1].(pred.Const); ok && c.V != nil {
+					k, _ := constant.Int64Val(c.V)
+					return pred.Const{V: constant.MakeInt64(int64(strings.IndexByte(set, byte(k))))}, nil
+				}
+				for i := 0; i < len(set); i++ {
+					if int64(set[i]) >= cl.lo && int64(set[i]) <= cl.hi {
+						return nil, &pred.Undecided{Reason: "IndexByte splits the byte class"}
+					}
+				}
+				return pred.Const{V: constant.MakeInt64(-1)}, nil
+			},
+		}
+		sums["bytes.IndexByte"] = sums["strings.IndexByte"]
+		o := &treeOracle{assign: map[string]int{}, fixed: fixed, keyOf: func(a, b pred.Val) (string, bool) { return "", false }}
+		ev := &pred.Evaluator{Prog: e.P.SSA, Oracle: o, Summaries: sums, GlobalInit: e.globalTables()}
+		_, err := ev.Eval(fn, []pred.Val{&pred.SliceV{Elems: []*pred.Cell{cell}}})
+		construct := fmt.Sprintf("%q", rune(cl.lo))
+		if !cl.letter {
+			construct = fmt.Sprintf("bytes %#x..%#x", cl.lo, cl.hi)
+		}
 		switch {
-		case !ok:
-			e.S.Bad(rule, site, construct, fmt.Sprintf("the letter %q is not lower-cased: FormatLowerCase output keeps an upper-case letter", c), e.Pos(fn), string(c))
-		case v != int64(c|0x20):
-			e.S.Bad(rule, site, construct, fmt.Sprintf("%q is mapped to %q, not to its own lower case %q", c, rune(v), c|0x20), e.Pos(fn), string(c))
+		case err != nil:
+			e.S.Unk(rule, site, construct, "not evaluable: "+err.Error(), e.Pos(fn))
+		case cl.letter:
+			want := cl.lo | 0x20
+			if k, ok := intOf(cell.V); ok && k == want {
+				e.S.Ok(rule, site, construct, fmt.Sprintf("%q ↦ %q", rune(cl.lo), rune(want)), e.Pos(fn))
+			} else if ok && k == cl.lo {
+				e.S.Bad(rule, site, construct, fmt.Sprintf("the letter %q is not lower-cased: FormatLowerCase output keeps an upper-case letter", rune(cl.lo)), e.Pos(fn), string(rune(cl.lo)))
+			} else {
+				e.S.Bad(rule, site, construct, fmt.Sprintf("%q is mapped to %v, not to its own lower case %q", rune(cl.lo), cell.V, rune(want)), e.Pos(fn), string(rune(cl.lo)))
+			}
 		default:
-			e.S.Ok(rule, site, construct, fmt.Sprintf("%q ↦ %q", c, c|0x20), e.Pos(fn))
+			if cell.V.String() != "b" {
+				gapBad = fmt.Sprintf("toLower also rewrites bytes in %#x..%#x (to %v), which are not upper-case roman letters", cl.lo, cl.hi, cell.V)
+				e.S.Bad(rule, site, construct, gapBad, e.Pos(fn), "")
+			}
 		}
-		delete(got, int64(c))
 	}
-	for c, v := range got {
-		e.S.Bad(rule, site, fmt.Sprintf("%q", rune(c)), fmt.Sprintf("toLower also rewrites %q to %q, which is not a roman letter", rune(c), rune(v)), e.Pos(fn), "")
+	if gapBad == "" {
+		e.S.Ok(rule, site, "other bytes", "every byte that is not one of I V X L C D M is left unchanged", e.Pos(fn))
 	}
 	// applied only under FormatLowerCase
 	if df != nil {
